@@ -742,3 +742,13 @@ VERUS["gate_unbounded"] = dict(
         "C06.verifier.kept.unbounded": ["C08"],
         "C07.reset.unbounded": ["C06", "C08"],
     })
+
+
+# C05 over histories (wave 9, seed C05-i): "afterwards any thread can create a new injector and use it normally" and
+# "at most one panic" quantify over what happens AFTER a refusal; a per-call contract proved from the initial state of
+# every static does not see a core that remembers the refusal (e.g. a std Mutex poisoned by the refusing panic —
+# which Kani's panic=abort std cannot exhibit at all). Same frame assumption as C02.frame.no-hidden-state: checked
+# by the scan; when the core keeps process-wide state, the native history replay (refusal while another fake is
+# installed, then a fresh thread's injector) decides.
+STATIC["backend_state_after_refusal"] = dict(props=["C05"], fn=scan_backend_state, obligation="C05.refusal.no-hidden-state",
+                                             replay_static=lambda verif: _replay_bin("c05_refusal_relife", [], verif), soft=True)
